@@ -271,6 +271,9 @@ func leaseCheck4(sc leaseScenario, o leaseOut) (string, string) {
 		}
 		return leaseCompletion(sc, o, phs[0], offer, dec[0].TransactionID, false)
 	case "renew":
+		if o.leaseTouched != "" {
+			return "renew", o.leaseTouched
+		}
 		offer, ack := parsePktSemi(sc.offer), parsePktSemi(sc.ack)
 		if len(phs) != 1 {
 			return "renew", "Renew sent more than one kind of datagram"
